@@ -38,7 +38,10 @@ def snapshot(d):
 EXCLUDE_SETS = [(["docs", "*.link*"], "docs/*", "docs/junk.md"), (["*.c*", "*.link*"], "*.c*", "junk.c"),
                 (["lib/deep", "*.link*"], "lib/deep/*", "lib/deep/junk"),
                 # root-anchored: only ./deep and ./src/.. are excluded, lib/deep/x.py must still be recorded
-                (["/deep", "*.link*"], "deep/*", "deep/junk"), (["/b.c0", "/lib/x.py0", "*.link*"], "b.c0", "b.c0")]
+                (["/deep", "*.link*"], "deep/*", "deep/junk"), (["/b.c0", "/lib/x.py0", "*.link*"], "b.c0", "b.c0"),
+                # directory-only (trailing slash): the directory docs/ is left out, the regular file tools/docs (created at
+                # the start of such a history) is covered
+                (["docs/", "*.link*"], "docs/*", "docs/junk.md"), (["docs/", "*.link*"], "docs/*", "docs/junk.md")]
 LSTRIP_SETS = [["src/"], ["lib/"], ["lib/deep/"], ["src/", "docs/"], ["lib/", "deep/"], ["deep/", "lib/"], ["docs/", "r e"],
                ["nothing/", "src/"]]
 
@@ -205,6 +208,12 @@ class Honest:
             # directories first, then files: "src" before "src2", "lib" before "lib.tar"
             tops = sorted({p.split("/")[0] for p in present}, key=lambda n_: (not os.path.isdir(os.path.join(self.work, n_)), n_))
             opts["paths"] = tops if len(tops) >= 2 else None
+        if opts["exclude"] and opts["exclude"][0][0].endswith("/"):
+            extra = ["create:tools/%s:#!/bin/sh\n" % opts["exclude"][0][0].rstrip("/"), "create:docs/guide.md0:g\n"]
+            subprocess.run([sys.executable, "-B", STEPPER] + extra, cwd=self.work, check=True, capture_output=True)
+            present = set(present) | {o.split(":")[1] for o in extra}
+            if isinstance(opts["paths"], list) and "tools" not in opts["paths"]:
+                opts["paths"] = opts["paths"] + ["tools"]
         plist = list(opts["paths"]) if opts["paths"] else ["."]
         if present and rng.random() < 0.3 and not opts["exclude"]:
             # (not with custom exclude patterns: a directory link would make an excluded file reachable under a
